@@ -1,7 +1,7 @@
 #!/usr/bin/env python3
 """tools/par_seeds.py [-j N] [seed-dir ...]
 
-Parallel regression of the seeded changes: N workers, each with its OWN scratch worktree of /repo (under /tmp/rg, removed at
+Parallel regression of the seeded changes: N workers, each with its OWN scratch worktree of /repo (under /tmp/rg-<pid>, removed at
 the end), its own copy of the harness crate pointing at that worktree and its own cargo target directory, so that /repo itself is
 never touched.  For every seed: apply the patch in the worker's worktree, build the worker's harness, run the property's quick
 check against THAT binary (VJX_HARNESS / VJX_SKIP_BUILD; evidence and replays go to the worker's scratch directory), revert.
@@ -10,7 +10,7 @@ over all seeds, writes seeded/REGRESSION.txt.  The registered checks never use t
 import sys, os, subprocess, shutil, glob, re, threading, queue, time
 
 VERIF = os.path.dirname(os.path.dirname(os.path.abspath(__file__)))
-ROOT = "/tmp/rg"
+ROOT = "/tmp/rg-%d" % os.getpid()      # one scratch root per invocation: concurrent runs do not disturb each other
 
 
 def sh(cmd, cwd=None, env=None, timeout=None):
